@@ -340,6 +340,20 @@ func c16(c *core.Ctx, r *core.Report) {
 				}
 			}
 		}
+		// when each vector is made by a helper, the builder is the function that assembles the Metrics value from them
+		if bm != nil && (bm.Signature.Results().Len() == 0 || !an.IsNamed(bm.Signature.Results().At(0).Type(), core.ModPath+"/"+mpkg, "Metrics")) {
+			helper := bm
+			for _, fn := range c.AllFuncs {
+				if core.RelPkg(fn) != mpkg || fn.Signature.Results().Len() == 0 || !an.IsNamed(fn.Signature.Results().At(0).Type(), core.ModPath+"/"+mpkg, "Metrics") {
+					continue
+				}
+				for _, call := range an.AllCalls(fn) {
+					if an.Callee(call) == helper {
+						bm = fn
+					}
+				}
+			}
+		}
 		if bm == nil {
 			panic(core.AnchorError{What: "the function of internal/metrics that builds the summary vectors"})
 		}
@@ -356,11 +370,17 @@ func c16(c *core.Ctx, r *core.Report) {
 				return
 			}
 			for f, v := range an.LiteralFields(lit) {
+				// the vector: made here, or by a helper that is handed the names
+				cv := an.RootFV(bm, v)
 				call, ok := v.(*ssa.Call)
+				if ok && an.Callee(call) != nil && an.Callee(call).Name() != "NewSummaryVec" && core.RelPkg(an.Callee(call)) == mpkg && !sortedKeysFns[an.Callee(call)] {
+					cv = cv.Resolve(stopAtKeys)
+					call, ok = cv.V.(*ssa.Call)
+				}
 				if !ok || an.Callee(call) == nil || an.Callee(call).Name() != "NewSummaryVec" {
 					continue
 				}
-				elems, tail, ok := sliceLitPlusFV(an.RootFV(bm, call.Call.Args[1]), stopAtKeys)
+				elems, tail, ok := sliceLitPlusFV(an.FV{V: call.Call.Args[1], F: cv.F}, stopAtKeys)
 				if !ok {
 					r.Undecided("buildMetrics#"+f, an.Pos(c, call), "label names of %s are not `append([]string{…}, keys...)`", f)
 					continue
